@@ -7,5 +7,5 @@ CONSTANTS
   MaxN = 7
   Salts = {0, 1, 2}
   Emit = TRUE
-INVARIANTS BranchLaws WellFormed DistLaw CompLaw DecoupleLaw SingleLaw RedLaw PiInjective IdInvariant IdProjects IdSeparates IdExists Vector
+INVARIANTS MultiLaw IdInvariant2 BranchLaws WellFormed DistLaw CompLaw DecoupleLaw SingleLaw RedLaw PiInjective IdInvariant IdProjects IdSeparates IdExists Vector
 CHECK_DEADLOCK FALSE
